@@ -22,6 +22,12 @@ class Operand:
         j = ex.skip(f, i)
         self.node = j
         self.const = ex.const(f, j)
+        if self.const is None:
+            try:
+                if ex.is_null(f, j):
+                    self.const = 0          # NULL
+            except Exception:
+                pass
         self.fields = set()
         self.calls = set()
         self.locals = set()
